@@ -14,22 +14,22 @@ P = {
  "C01": ("Structural necessary conditions of handshake agreement: client/server role mirror of every key-derivation call (randoms, isClient flag, Finished label), session-hash rule list equals the CertificateVerify transcript, negotiated values committed only after the peer hello was validated, peer chain stored only from the peer's Certificate message, snapshot field completeness; the committed SRTP decision equals what the (hook-rewritable) ServerHello carries; ShouldWrapCID is exactly the negotiated state. Also: response extensions checked element by element; the client records an ALPN selection only if it offered it.",
          "Agreement over the configuration product and delivery schedules; byte equality of exported keying material; that data then flows.",
          "SSA provenance (def-use slicing) + dominance + table extraction"),
- "C02": ("Recoverability structure only: retransmit flags of the generator tables, non-retransmitted flights regenerable via the previous flight's parser, records one epoch ahead are queued and replayed after every read-key installation; the waiting state keeps one timer across non-advancing datagrams; tracked DTLS 1.3 fragments remember their own offset/length. Also: the state machine and the reader run under contexts rooted at context.Background() (not the Handshake caller's); a cache lookup never replaces a chosen entry by one of the same message sequence (retransmitted copies do not change the transcript); a flight parser never turns one of its own equality guards on state around before a keep-reading exit (re-entrancy per datagram). Also: CertificateVerify can encode every scheme the handshake selects.",
+ "C02": ("Recoverability structure only: retransmit flags of the generator tables, non-retransmitted flights regenerable via the previous flight's parser, records one epoch ahead are queued and replayed after every read-key installation; the waiting state keeps one timer across non-advancing datagrams; tracked DTLS 1.3 fragments remember their own offset/length. Also: the state machine and the reader run under contexts rooted at context.Background() (not the Handshake caller's); a cache lookup never replaces a chosen entry by one of the same message sequence (retransmitted copies do not change the transcript); a flight parser never turns one of its own equality guards on state around before a keep-reading exit (re-entrancy per datagram). Also: CertificateVerify can encode every scheme the handshake selects. Also: dual-stack first flight retransmitted; DTLS 1.3 cookie request re-sent on a repeated ClientHello.",
          "Liveness itself: completion and its latency under every fault mask are runtime quantities.",
          "switch-table extraction + must-pass-through (dominance) on SSA"),
  "C03": ("Every accepting path passes the credential checks: client verifies ServerKeyExchange signature and chain before deriving keys (must-pass-through, control-dependence whitelist); server client-auth policy decision table extracted exhaustively over ClientAuth x certificate presence x verified flag; DTLS 1.3 Certificate/CertificateVerify/Finished flags. Also: for every value of the declared signature algorithm only the matching primitive (ECDSA, Ed25519, RSA PKCS1, RSA-PSS) is reachable from VerifyKeySignature / VerifyCertificateVerify, and every digest-taking primitive is guarded by a non-empty-digest check; the DTLS 1.3 state machine can declare the handshake finished by sending or by acknowledgement only in the last send flight (client only) and after a parsed flight only on the server staying in the last receive flight; a session-store miss stays a miss through the configuration adapter.",
          "Correctness of x509/ECDSA/RSA verification (library); expiry/time.",
          "must-pass-through + finite decision-table extraction over SSA CFG"),
- "C04": ("Every first consumption of the peer's Finished in a DTLS 1.2 flight parser is followed on every advancing exit by a successful equality test of verify_data against PRF(master secret, role label, canonical transcript); DTLS 1.3 success exits dominated by verifyPeerFinished, whose comparison, transcript snapshot, per-role base key (sender's handshake traffic secret, private helpers followed) and verify-before-append order are checked; second ClientHello validated against the first; the cookie-echoing ClientHello (1.2) and the HelloRetryRequest answer (1.3) are byte-compared with the first ClientHello around the cookie / in front of the extensions. Also: every advancing exit of a Finished-consuming parser counts, also one taken before the message is looked at; DTLS 1.3 completion table as in C03. Also: pinned extensions of the two ClientHellos compared by presence and bytes.",
+ "C04": ("Every first consumption of the peer's Finished in a DTLS 1.2 flight parser is followed on every advancing exit by a successful equality test of verify_data against PRF(master secret, role label, canonical transcript); DTLS 1.3 success exits dominated by verifyPeerFinished, whose comparison, transcript snapshot, per-role base key (sender's handshake traffic secret, private helpers followed) and verify-before-append order are checked; second ClientHello validated against the first; the cookie-echoing ClientHello (1.2) and the HelloRetryRequest answer (1.3) are byte-compared with the first ClientHello around the cookie / in front of the extensions. Also: every advancing exit of a Finished-consuming parser counts, also one taken before the message is looked at; DTLS 1.3 completion table as in C03. Also: pinned extensions of the two ClientHellos compared by presence and bytes. Also: extension-borne parameters re-derived from the validated second ClientHello; downgrade sentinel set and checked.",
          "That every byte mutation changes the hash (cryptographic).",
          "must-pass-through with failure-assumption path exploration + rule-list table comparison"),
  "C05": ("Receive-path ordering: replay check before decrypt, accept-closure invoked only by consumers of authenticated records, CID presence/equality checks on every decrypt-success path, no alert/emit reachable from the prepare/decrypt path, epoch-0 application data refused, AAD reads every header field; DTLS 1.3 open(): nonce/ciphertext/additional-data provenance, result only after a successful AEAD Open, full comparison of the unmasked on-wire sequence bits with the reconstructed number. Also: the in-repository CCM authenticates the additional data in two pieces that tile it exactly (continuation starts at the number of bytes the first block took).",
          "Payload equality (AEAD correctness is the library's); replay-window semantics.",
          "dominance ordering + who-may-call + call-graph reachability + field-read sets"),
- "C06": ("No delivery path bypasses the replay detector; window argument derives from the configured value; one detector per epoch; DTLS 1.3 highest-accepted sequence written only inside the accept closure; the commit function handed to record consumers marks the window on every path and reports the detector's answer; DTLS 1.3 record-number reconstruction has half-window thresholds and whole-window moves. Also: with a record epoch beyond the current read epoch no path of the DTLS 1.2 prepare function (helpers followed) reaches the construction of a replay detector; every delivery (payload into Conn.decrypted, reassembled handshake message into the handshake cache) is dominated by the invocation of the commit closure, in its function or at every call site of its private helper.",
+ "C06": ("No delivery path bypasses the replay detector; window argument derives from the configured value; one detector per epoch; DTLS 1.3 highest-accepted sequence written only inside the accept closure; the commit function handed to record consumers marks the window on every path and reports the detector's answer; DTLS 1.3 record-number reconstruction has half-window thresholds and whole-window moves. Also: with a record epoch beyond the current read epoch no path of the DTLS 1.2 prepare function (helpers followed) reaches the construction of a replay detector; every delivery (payload into Conn.decrypted, reassembled handshake message into the handshake cache) is dominated by the invocation of the commit closure, in its function or at every call site of its private helper. Also: stale-epoch records never newest; the export carries the receive position.",
          "Window semantics (pion/transport replaydetector, outside the repository); arrival-order quantification.",
          "who-may-call + provenance slicing"),
- "C07": ("Packet-literal discipline (ShouldEncrypt / epoch on every secret-carrying flight.Packet), Write reaches the record writer only after Handshake(), encrypted branch output flows only through Encrypt/seal, exporter secret provenance per State constructor; packets re-built around another packet's record inherit its protection flags; Write reads the connection state only after Handshake(). Also: KeyUpdate successor-secret rules and the single-allocator rule (shared with C20 / C09): a key or nonce reuse is a confidentiality break.",
+ "C07": ("Packet-literal discipline (ShouldEncrypt / epoch on every secret-carrying flight.Packet), Write reaches the record writer only after Handshake(), encrypted branch output flows only through Encrypt/seal, exporter secret provenance per State constructor; packets re-built around another packet's record inherit its protection flags; Write reads the connection state only after Handshake(). Also: KeyUpdate successor-secret rules and the single-allocator rule (shared with C20 / C09): a key or nonce reuse is a confidentiality break. Also: DTLS 1.3 exporter = RFC 8446 7.5 over the exporter master secret.",
          "Cryptographic secrecy; interleavings of Write with Close.",
          "composite-literal extraction + dominance + provenance slicing"),
  "C08": ("Panic-freedom classes (index/slice bounds by a linear-inequality abstract interpreter with Fourier-Motzkin entailment, nil map-element dereference, unchecked type assertion, explicit panic) on everything reachable from the network entry points; guarded growth of the two named buffers; decode errors mapped to drop; every error the datagram unpackers can return is mapped to drop-and-continue by the read loop. Also: detector-table growth bounded against forged epochs (shared with C06); the waiting state arms its timer once (shared with C17); the read loop closes the connection on the close-and-stop verdict; results of nil-returning lookups (ForID and friends) are compared with nil before use.",
@@ -47,25 +47,25 @@ P = {
  "C12": ("Sender fragment header provenance (offset = running sum, length = len(fragment)), Pop returns non-nil only after the completeness guards and is the only path that deletes the entry and advances the cursor, single consumer; handshake header wire layout; the reassembly buffer is drained after every successful push. Also: advancing the delivery cursor discards only messages strictly before the new cursor. Also: reassembly by coverage (appended bytes = fragment.data[position - offset:], selected fragment starts at or before the position and reaches beyond it, uncovered position yields nil), a stored offset is replaced only by a longer fragment, overlapping ranges are surfaced.",
          "Byte-exact reassembly over all partitions and permutations.",
          "SSA provenance + must-pass-through"),
- "C13": ("Cookie flights flagged non-retransmittable in both generator tables; their generators emit exactly one HelloVerifyRequest/HelloRetryRequest; flight0Parse cannot yield the certificate flight without skip-verify; the second-hello parser's success is dominated by the checked cookie/body validation with the cookie argument derived from state; second ClientHello byte-compared with the first; session-store adapter preserves a miss. Also: with the state machine in the non-retransmittable (cookie) flight and its retransmit flag false, no handler other than the preparation of a fresh flight can produce StateSending. Also: pinned extensions (connection_id, use_srtp) compared by presence and bytes; no public-key operation before the cookie is validated; a wake-up without a ClientHello sends no cookie request (DTLS 1.3; DTLS 1.2 fallback is a known finding).",
+ "C13": ("Cookie flights flagged non-retransmittable in both generator tables; their generators emit exactly one HelloVerifyRequest/HelloRetryRequest; flight0Parse cannot yield the certificate flight without skip-verify; the second-hello parser's success is dominated by the checked cookie/body validation with the cookie argument derived from state; second ClientHello byte-compared with the first; session-store adapter preserves a miss. Also: with the state machine in the non-retransmittable (cookie) flight and its retransmit flag false, no handler other than the preparation of a fresh flight can produce StateSending. Also: pinned extensions (connection_id, use_srtp) compared by presence and bytes; no public-key operation before the cookie is validated; a wake-up without a ClientHello sends no cookie request (DTLS 1.3; DTLS 1.2 fallback is a known finding). Also: cookie request re-sent only for a repeated handshake message of the peer.",
          "Datagram sizes and timing.",
          "switch-table extraction + decision tables + must-pass-through"),
  "C14": ("Finished comparison on both abbreviated paths, resumed master secret provenance (store lookup keyed by the offered ID), fresh randoms/CIDs on every path of the hello generators, fatal alert deletes the session before the alert is written, client certificate clears the session ID; session-store adapter preserves a miss; only the full-handshake parsers write the store. Also: parser re-entrancy (shared with C02): the client adopts the server's new session ID only after the whole flight arrived.",
          "Store contents over histories; loss patterns.",
          "must-pass-through + provenance + decision table"),
- "C15": ("CID checks on receive (with C05), CID wrapping flags on every protected packet literal, Conn.rAddr has a single guarded writer, WriteToContext call sites dominated by the amplification reserve, Reserve factor constant; the commit function reports the detector's newest-record answer (gate for path challenges). Also: what generateState takes out of a slot of state.Common (connection IDs, RRC flag, epochs ...) generateInternalState puts back into that same slot from the State field of that name only.",
+ "C15": ("CID checks on receive (with C05), CID wrapping flags on every protected packet literal, Conn.rAddr has a single guarded writer, WriteToContext call sites dominated by the amplification reserve, Reserve factor constant; the commit function reports the detector's newest-record answer (gate for path challenges). Also: what generateState takes out of a slot of state.Common (connection IDs, RRC flag, epochs ...) generateInternalState puts back into that same slot from the State field of that name only. Also: a record of a left-behind epoch is never the newest.",
          "Timing, racing paths, listener map behaviour.",
          "who-may-write + control dependence + dominance"),
- "C16": ("Lock-acquisition order graph acyclic; every blocking channel operation has a cancellation alternative; single close site per channel; close()/close_notify decision table; the write-path context helpers return the context that a watcher on Conn.closed cancels, on every path. Also: a function that builds a close-aware context hands that context to every context-taking call after it; the read loop always closes on the close-and-stop verdict; FSM and reader contexts are rooted at Background.",
+ "C16": ("Lock-acquisition order graph acyclic; every blocking channel operation has a cancellation alternative; single close site per channel; close()/close_notify decision table; the write-path context helpers return the context that a watcher on Conn.closed cancels, on every path. Also: a function that builds a close-aware context hands that context to every context-taking call after it; the read loop always closes on the close-and-stop verdict; FSM and reader contexts are rooted at Background. Also: CID wrapping implies encryption on every packet literal; Close interruptions reported as ErrConnClosed; no uncancellable context on the close path.",
          "Data-race freedom and deadlock freedom over interleavings; goroutine counts.",
          "lock-order graph + select-case enumeration + who-may-close"),
- "C17": ("handleRetransmitTimeout decision table and constants (doubling, 60 s cap, backoff disable), interval writers enumerated, reset store control-dependent only on non-retransmitted input, cookie flights never timer-sent; the waiting state keeps one retransmission timer (never re-armed by non-advancing datagrams). Also: the per-datagram summary flags (retransmit, containsHandshake) are monotone over the records of a datagram.",
+ "C17": ("handleRetransmitTimeout decision table and constants (doubling, 60 s cap, backoff disable), interval writers enumerated, reset store control-dependent only on non-retransmitted input, cookie flights never timer-sent; the waiting state keeps one retransmission timer (never re-armed by non-advancing datagrams). Also: the per-datagram summary flags (retransmit, containsHandshake) are monotone over the records of a datagram. Also: the doubler is called only under a timer select case; the pre-state-machine wait loop retransmits on a doubled, capped interval.",
          "Actual intervals and datagram counts.",
          "decision-table extraction + who-may-write + control dependence"),
- "C18": ("Marshal/Unmarshal field symmetry per codec type, registries cover every message/content/extension implementer, decoded lengths that guard must also bound the following slice, datagram unpackers advance by exactly the declared length; decoder loops that run to the end of their buffer consume exactly a declared length; Handshake.Unmarshal decodes only whole messages (len-12 == length == fragment_length); unified header size from the parsed header; handshake header wire layout. Also: narrowing of a length to its 8/16-bit wire field is proved lossless wherever the encoder bounds that quantity (linear-inequality engine with accumulator loop invariants), and every narrowing proved on the reviewed tree must stay proved (spec/narrowing_baseline.json); a hook-supplied hello is returned as the freshly decoded canonical copy. Also: the CertificateVerify encoder has a successful exit for every (hash, signature) pair the library offers, including RSA-PSS.",
+ "C18": ("Marshal/Unmarshal field symmetry per codec type, registries cover every message/content/extension implementer, decoded lengths that guard must also bound the following slice, datagram unpackers advance by exactly the declared length; decoder loops that run to the end of their buffer consume exactly a declared length; Handshake.Unmarshal decodes only whole messages (len-12 == length == fragment_length); unified header size from the parsed header; handshake header wire layout. Also: narrowing of a length to its 8/16-bit wire field is proved lossless wherever the encoder bounds that quantity (linear-inequality engine with accumulator loop invariants), and every narrowing proved on the reviewed tree must stay proved (spec/narrowing_baseline.json); a hook-supplied hello is returned as the freshly decoded canonical copy. Also: the CertificateVerify encoder has a successful exit for every (hash, signature) pair the library offers, including RSA-PSS. Also: declared-region reads proven; empty key material refused; sibling narrowing agreement; record content vs declared length (known finding).",
          "decode(encode(v)) == v and canonical fixed points over values.",
          "field read/write sets + registry exhaustiveness + length-use lint on SSA"),
- "C19": ("Every serializedState field written by serialize and read by deserialize, every State field produced by generateState consumed by generateInternalState, sequence counter carried from and back to the same epoch index, DTLS 1.3 refused at all four entry points; imported integers are taken verbatim; ConnectionState generates its snapshot from the live state; Write reads the state after Handshake(). Also: import mirrors export slot by slot; no function that starts a handshake writes an exported slot on a path that can return success (a resumed connection keeps its negotiated parameters); nil-returning lookups are checked before use (corrupted serialised suite id).",
+ "C19": ("Every serializedState field written by serialize and read by deserialize, every State field produced by generateState consumed by generateInternalState, sequence counter carried from and back to the same epoch index, DTLS 1.3 refused at all four entry points; imported integers are taken verbatim; ConnectionState generates its snapshot from the live state; Write reads the state after Handshake(). Also: import mirrors export slot by slot; no function that starts a handshake writes an exported slot on a path that can return success (a resumed connection keeps its negotiated parameters); nil-returning lookups are checked before use (corrupted serialised suite id). Also: resume state consulted for every version range that allows DTLS 1.2; receive position exported and restored.",
          "That the resumed connection interoperates; gob robustness.",
          "field coverage sets + provenance + guard dominance"),
  "C20": ("Write generation installed only by commitLocalKeyUpdate, reached only after the ACK path, under both locks and after validateNextWriteGeneration; read side installs only in handleKeyUpdate after epoch guards; successor derivation label/inputs; candidate epochs bounded by RemoteEpoch before Open; every retained read generation with matching epoch bits is a candidate; an epoch-0 ACK can never pass on a protected record number (decided semantically).",
